@@ -20,7 +20,7 @@ import (
 //
 // Reference: a maximal-munch lexer transcribed from the token rules of expr/Expr.g4 and a
 // recursive-descent recogniser/flattener for its parser rules. Enumerated: every token sequence
-// of length <= 6 (thorough 7) over 14 representative lexemes (two spacings), every string of length
+// of length <= 6 (thorough 7) over 15 representative lexemes (two spacings), every string of length
 // <= 4 (thorough 5) over a 24-symbol alphabet (bare and wrapped in `T{k=...}`), nesting/width ladders.
 // ---------------------------------------------------------------------------------------------
 
@@ -375,10 +375,10 @@ func firstLine(s string) string {
 	return s
 }
 
-var c17Lexemes = []string{"T", "k", "k2", "{", "}", "=", ",", ".", "[", "]", `"s\n\/\\\""`, "7", "-0x1F", "+.5e-3"}
+var c17Lexemes = []string{"T", "k", "k2", "{", "}", "=", ",", ".", "[", "]", `"s\n\/\\\""`, "7", "-0x1F", "+.5e-3", "\"é\\t☺\xff\""}
 
 func init() {
-	definePart("C17", "c17/token-sequences", "qt", "every sequence of <= 6 (thorough 7) tokens over 14 lexemes, two spacings",
+	definePart("C17", "c17/token-sequences", "qt", "every sequence of <= 6 (thorough 7) tokens over 15 lexemes, two spacings",
 		func(tier string, yield func(string)) {
 			n := 6
 			if tier == "thorough" {
